@@ -272,10 +272,51 @@ def run(chk):
                "deviations_switched_on": dev, "named_deviation_hits": st["named_deviation_hits"],
                "divergence_signatures": st["divergences"], "classes_judged": len(st["classes"]), "judged_by_statement": have, "exhaustive": False,
                "samples": [relddl.describe(h, s) for h, s in uniq[:: max(1, len(uniq) // 3)][:3]]}
+    wide_ddl_phase(chk)
+
+
+def wide_ddl_phase(chk):
+    """CREATE INDEX / DROP INDEX on a table of several hundred rows (WideTable.tla with WithDDL = TRUE): the statement that
+    follows the DDL must already see its whole effect - the new index answers for every row that existed before it, also
+    once the index B-tree has more than one leaf, and after a reopen"""
+    import widetable
+    thorough = chk.tier == "thorough"
+    dh = widetable.walks(chk, 80 if thorough else 10, 20 if thorough else 12, n=700, ddl=True)
+    probs, st = widetable.judge(dh, widetable.execute(dh, n=700, ddl=True), n=700)
+    late = sum(1 for h in dh for x in h if x["op"]["k"] == "create_index" and x["probes"]["count"] >= 100)
+    if not late:
+        raise vlib.ToolError("no WideTable walk created an index on a table of 100 rows or more")
+    sigs = {}
+    for h, kind, d in probs:
+        ddl_before = [x["op"]["k"] for x in h if x["op"]["k"] in ("create_index", "drop_index")]
+        if not ddl_before:
+            continue       # nothing DDL has happened yet: C05 / C10 territory
+        if kind == "model" and h[-1]["op"]["k"] not in ("create_index", "drop_index"):
+            continue       # a DML statement's own result: C05
+        sig = "wide_ddl:%s:%s:after_%s" % (d["what"], h[-1]["op"]["k"], ddl_before[-1])
+        sigs[sig] = sigs.get(sig, 0) + 1
+        chk.classify(sig, {"behaviour": widetable.describe(h), "wide_hist": h, "wide_ddl": True, "detail": d})
+    if st["steps"] and st["abandoned"] > 0.5 * st["steps"]:
+        raise vlib.ToolError("more than half of the WideTable DDL steps were abandoned")
+    chk.cov["wide_ddl"] = dict(st, walks=len(dh), indexes_created_on_100_rows_or_more=late, signatures=sigs, sample=widetable.describe(dh[0]))
+    chk.mark("wide_ddl")
 
 
 def replay(chk, path):
     rep = json.load(open(path))["replay"]
+    if "wide_hist" in rep:
+        import widetable
+        vlib.build_harness()
+        h = rep["wide_hist"]
+        probs, st = widetable.judge([h], widetable.execute([h], n=700, ddl=True), n=700)
+        print("replayed:", widetable.describe(h))
+        for hp, k, d in probs:
+            print("  %s after step %d: %s" % (k, len(hp), json.dumps(d)[:300]))
+            ddl_before = [x["op"]["k"] for x in hp if x["op"]["k"] in ("create_index", "drop_index")]
+            if ddl_before and not (k == "model" and hp[-1]["op"]["k"] not in ("create_index", "drop_index")):
+                chk.classify("wide_ddl:%s:%s:after_%s" % (d["what"], hp[-1]["op"]["k"], ddl_before[-1]), {"behaviour": widetable.describe(hp), "wide_hist": hp, "wide_ddl": True, "detail": d})
+        chk.cov = {"states": 1, "transitions": len(h), "traces_validated_against_impl": 1, "samples": [widetable.describe(h)], "replay_of": path}
+        return chk.finish()
     vlib.build_harness()
     h, start = rep["hist"], rep.get("start", "t2")
     st = evaluate(chk, [(h[:k], start) for k in range(1, len(h) + 1)])
